@@ -48,7 +48,7 @@ func runDaemon(t *testing.T, tape *simrt.Tape) *hx.Outcome {
 	fuseFailDen := []int{0, 0, 5}[c(3)]
 	root, cleanup := hx.RunDir()
 	defer cleanup()
-	mounts, unmounts, reads := 0, 0, 0
+	mounts, unmounts, reads, refused := 0, 0, 0, 0
 	res := simrt.Run(t, tape, simrt.Options{MaxSteps: 3000000, HangAfter: 3 * time.Hour}, func(s *simrt.Sim, mt *simrt.Task) {
 		s.Procs = 1
 		s.UseDisk(simrt.DiskCfg{Yield: true})
@@ -72,11 +72,21 @@ func runDaemon(t *testing.T, tape *simrt.Tape) *hx.Outcome {
 					li := dr(nLayers)
 					L := img[li]
 					mp := filepath.Join(root, "mnt", fmt.Sprintf("h%dr%d", h, r), "fs")
-					labels := dm.Labels(li, "ok")
+					// a mount request may be refused after its layer was resolved (labels without or with another
+					// TOC digest): the layer it resolved must be given back as well
+					variant := []string{"ok", "ok", "ok", "wrong-toc", "none"}[s.Tape.Draw("lbl:"+t.Label, 5)]
+					labels := dm.Labels(li, variant)
 					f0 := s.Stats["fault.fuse-mount"]
 					err := dm.FS.Mount(ctx, mp, labels)
 					mounts++
-					s.Event("m%d mount l%d -> ok=%v", h, li, err == nil)
+					s.Event("m%d mount l%d labels=%s -> ok=%v", h, li, variant, err == nil)
+					if variant != "ok" {
+						if err == nil {
+							dm.FS.Unmount(ctx, mp) // (whether this may succeed is C01's question)
+						}
+						refused++
+						continue
+					}
 					if err != nil {
 						if calm && !outage && s.Stats["fault.fuse-mount"] == f0 {
 							s.Fail("mount-error", "Mount of layer %d failed against a calm reachable registry: %v", li, err)
@@ -196,6 +206,7 @@ func runDaemon(t *testing.T, tape *simrt.Tape) *hx.Outcome {
 	out.Counters["daemon.mounts"] += mounts
 	out.Counters["daemon.unmounts"] += unmounts
 	out.Counters["daemon.reads"] += reads
+	out.Counters["daemon.refused_mounts"] += refused
 	out.Nontrivial = unmounts > 1
 	out.Signature = fmt.Sprintf("daemon/l%d/h%d/calm%v/ttl%d/%s/%s/f%d", nLayers, nHolders, calm, ttl, fcfg.HTTPCacheType, fcfg.FSCacheType, fuseFailDen)
 	out.Sample = map[string]any{"campaign": "daemon", "layers": nLayers, "mounters": nHolders, "calm": calm, "ttl_s": ttl, "fuse_fail_den": fuseFailDen, "mounts": mounts, "log_tail": tailN(res.LogTail, 30)}
